@@ -363,7 +363,10 @@ def handleCurve (e : EEnv) (cache : Cache) (w : Nat) (op : String) (args : List 
           mpred (outRep K (Relic.Model.Eb.hlv ops cv pr) ++ " coord=3") got
             (BinFast.onCurve c Q && BinFast.dbl c Q == p && got == fmtPoint Q ++ " coord=3") "<Q on the curve with 2Q = P, lambda representation>" ["hlv.in2E", "model.hlv"]
         else pred got true "" ["hlv.notin2E"]
-      | none, some Q => pred got (BinFast.onCurve c Q && BinFast.dbl c Q == none && got == fmtPoint Q ++ " coord=3") "<Q with 2Q = O>" ["hlv.inf"]
+      | none, some Q =>
+        -- the representation flag of an identity result is immaterial
+        pred got (BinFast.onCurve c Q && BinFast.dbl c Q == none && (got == fmtPoint Q ++ " coord=3" || (Q == none && got.startsWith "inf")))
+          "<Q with 2Q = O>" ["hlv.inf"]
       | _, none => pred got false "<Q on the curve with 2Q = P>"
     else if o == "pck" then
       match p with
